@@ -337,7 +337,7 @@ func main() {
 			"single delete requests below the tip use the real stored block of that height (the engine's callers only ever pass the tip)",
 		},
 	}, func(c *mon.Ctx) {
-		c.Cases("history", c.N(240, 6000), func(k *mon.Case) { history(k, false) })
-		c.Cases("tiebreak", c.N(40, 600), func(k *mon.Case) { history(k, true) })
+		c.Cases("history", c.N(1200, 20000), func(k *mon.Case) { history(k, false) })
+		c.Cases("tiebreak", c.N(160, 2000), func(k *mon.Case) { history(k, true) })
 	})
 }
